@@ -231,6 +231,9 @@ SOLVER_REUSE = {
     "FISTA": dict(kw=dict(tol=1e-8, max_iter=200), datafits=["Quadratic", "Logistic"], pen="L1"),
     "GroupBCD": dict(kw=dict(tol=1e-8, max_iter=100, fit_intercept=False), datafits=["QuadraticGroup", "LogisticGroup"], pen="WeightedGroupL2"),
     "GramCD": dict(kw=dict(tol=1e-8), datafits=[None], pen="L1"),
+    # a user-supplied dual starting point (hyper-parameter array of the solver) and two designs with the same number of samples
+    "PDCD_WS": dict(kw=dict(tol=1e-8, max_iter=30, max_epochs=200), datafits=["SqrtQuadratic", "Pinball"], pen="L1", dual_init=True,
+                    data={"A": "tall", "B": "dup"}),
 }
 
 
@@ -240,8 +243,16 @@ def solver_play(sname, history):
     from mc import build
     from mc.core import derive_seed
     cfg = SOLVER_REUSE[sname]
-    solver = build.solver(dict(name=sname, kw=cfg["kw"]))
-    data = {"A": np.asfortranarray(A.G_TALL.copy()), "B": np.asfortranarray(A.G_SQ.copy())}
+    kw = dict(cfg["kw"])
+    user_dual = None
+    if cfg.get("dual_init"):
+        user_dual = np.array([0.1, -0.2, 0.05, 0.3, -0.1, 0.2])
+        kw["dual_init"] = user_dual
+    solver = build.solver(dict(name=sname, kw=kw))
+    base = {"A": A.G_TALL, "B": A.G_SQ}
+    if cfg.get("data"):
+        base = {"A": A.G_TALL, "B": A.K()["dup"]}
+    data = {k: np.asfortranarray(v.copy()) for k, v in base.items()}
     scales = {"A": 0, "B": 0}
     out = []
     for op in history:
@@ -253,13 +264,14 @@ def solver_play(sname, history):
         _, dn, key = op
         X = data[key]
         kind = R.KIND[dn]
-        y = R.targets(kind, A.G_TALL if key == "A" else A.G_SQ, "quick")[0][1]
-        lay = ([0, 2, 3], [0, 1, 2]) if key == "A" else ([0, 2, 4], [0, 2, 1, 3])
+        y = R.targets(kind, base[key], "quick")[0][1]
+        lay = ([0, 2, 3], [0, 1, 2]) if base[key].shape[1] == 3 else ([0, 2, 4], [0, 2, 1, 3])
         dspec = None if dn is None else (dict(name=dn, grp_ptr=lay[0], grp_indices=lay[1]) if "Group" in dn else
-                                         (dict(name=dn, delta=1.0) if dn == "Huber" else dict(name=dn)))
+                                         (dict(name=dn, delta=1.0) if dn == "Huber" else
+                                          (dict(name=dn, quantile_level=0.3) if dn == "Pinball" else dict(name=dn))))
         pspec = dict(name="L1", alpha=0.05, positive=False) if cfg["pen"] == "L1" else \
             dict(name="WeightedGroupL2", alpha=0.05, weights=[1.0, 2.0], grp_ptr=lay[0], grp_indices=lay[1], positive=False)
-        before = X.tobytes()
+        before = X.tobytes() + (user_dual.tobytes() if user_dual is not None else b"")
         rec = dict(op=op, kind="solve", key=f"{sname}|{dn}|{key}|x{scales[key]}")
         try:
             with warnings.catch_warnings():
@@ -272,7 +284,7 @@ def solver_play(sname, history):
             rec.update(status="ok", w=np.asarray(w, dtype=float).tolist(), stop=float(sc), n=len(hist))
         except Exception as e:
             rec.update(status="exc", exc=type(e).__name__ + ": " + str(e)[:100])
-        rec["inputs_untouched"] = before == X.tobytes()
+        rec["inputs_untouched"] = before == X.tobytes() + (user_dual.tobytes() if user_dual is not None else b"")
         out.append(rec)
     return out
 
